@@ -591,7 +591,13 @@ func (s *Service) restoreTopic(topic string) error {
 func (s *Service) RestoreTopic(topic string) error {
 	s.mu.Lock()
 	defer s.mu.Unlock()
-	return s.restoreTopic(topic)
+	if err := s.restoreTopic(topic); err != nil {
+		return err
+	}
+	// The topic is running again: the next Collect must not restore it a second time
+	// and discard what UpdateEvent has set in the meantime.
+	delete(s.closedTopics, topic)
+	return nil
 }
 
 func (s *Service) CloseTopic(topic string) error {
